@@ -161,6 +161,19 @@ pub fn define(
                     .expect_usize(report, expr.span())?),
             };
 
+            // The bank's window in the output must be addressable
+            if let (Some(size), Some(output_offset)) = (size, output_offset)
+            {
+                if output_offset.checked_add(size).is_none()
+                {
+                    report.error_span(
+                        "value is out of supported range",
+                        node.header_span);
+
+                    return Err(());
+                }
+            }
+
             let fill = node.fill;
 
             let bankdef = Bankdef {
